@@ -89,6 +89,22 @@ func constrainUnions(schema *jsonschema.Schema) {
 		}
 	}
 
+	// an entry of `output.languages` configures one language, an entry of `inputs`
+	// describes one input (next to its `if` condition)
+	if definition, found := schema.Definitions["CodegenOutputLanguage"]; found {
+		definition.MinProperties = &one
+		definition.MaxProperties = &one
+	}
+	if definition, found := schema.Definitions["CodegenInput"]; found && definition.Properties != nil {
+		for property := definition.Properties.Oldest(); property != nil; property = property.Next() {
+			if property.Key == "if" {
+				continue
+			}
+
+			definition.OneOf = append(definition.OneOf, &jsonschema.Schema{Required: []string{property.Key}})
+		}
+	}
+
 	// a rule that carries its selector inline (`rename: {by_object: Panel, as: Row}`) needs
 	// one of the criteria of that selector
 	for _, definition := range schema.Definitions {
